@@ -2141,3 +2141,209 @@ func checkImportPathsAgreeOnSchemaField(c *Ctx, rule string) {
 	}
 	c.Floor(rule, "direct single-field reads of the scope's address schema", n, 4)
 }
+
+// checkAddressLookupsNormalisePayToPubKey: the address rows (and the address cache) are keyed by the address's pubkey
+// hash / script hash. A pay-to-pubkey output hands the wallet a *btcutil.AddressPubKey, whose ScriptAddress() is the
+// serialized key itself; ScopedKeyManager.Address therefore swaps such an address for its AddressPubKeyHash() before
+// it computes the key. Every other lookup that computes the row key from a caller-supplied address has to do the same,
+// or it disagrees with Address about which addresses the wallet knows: the wallet's transaction intake asks Address
+// first (found), then AddrAccount and MarkUsed with the same value — a failure there aborts the recording of the
+// transaction (and the recovery batch it is part of, at every retry), a silent miss leaves the address unmarked.
+// Rule: in waddrmgr, wherever ScriptAddress() is invoked on a value that can be a btcutil.Address parameter of an
+// exported function (followed through unexported helpers to their call sites), the value can also be the result of
+// AddressPubKeyHash() — i.e. the normalisation is merged in.
+func checkAddressLookupsNormalisePayToPubKey(c *Ctx, rule string) {
+	p := c.P
+	type origin struct {
+		raw        []*ssa.Function // exported functions whose own parameter reaches the key computation
+		normalised bool
+	}
+	var resolve func(v ssa.Value, depth int, o *origin)
+	resolve = func(v ssa.Value, depth int, o *origin) {
+		for _, t := range (&Slicer{P: p}).Origins(v) {
+			switch x := t.(type) {
+			case *ssa.Call:
+				if x.Call.IsInvoke() && x.Call.Method.Name() == "AddressPubKeyHash" || calleeShort(&x.Call) == "AddressPubKeyHash" {
+					o.normalised = true
+				}
+			case *ssa.Parameter:
+				f := x.Parent()
+				if f.Object() != nil && f.Object().Exported() && f.Parent() == nil {
+					o.raw = append(o.raw, f)
+					continue
+				}
+				if depth >= 3 {
+					continue
+				}
+				idx := paramIndex(f, x)
+				for _, cs := range p.realCallers(f) {
+					args := cs.Common().Args
+					if idx >= 0 && idx < len(args) {
+						resolve(args[idx], depth+1, o)
+					}
+				}
+			}
+		}
+	}
+	n := 0
+	for _, fn := range p.FuncsIn("waddrmgr") {
+		for _, ci := range callsOf(fn) {
+			call, ok := ci.(*ssa.Call)
+			if !ok || !call.Call.IsInvoke() || call.Call.Method.Name() != "ScriptAddress" {
+				continue
+			}
+			if !strings.HasSuffix(call.Call.Value.Type().String(), "btcutil.Address") {
+				continue
+			}
+			var o origin
+			resolve(call.Call.Value, 0, &o)
+			if len(o.raw) == 0 {
+				continue // the wallet's own managed address, not a caller's
+			}
+			n++
+			c.Check(rule, "address-key-normalises-pay-to-pubkey:"+fnName(o.raw[0])+">"+fn.Name(), call.Pos(), o.normalised,
+				fnName(o.raw[0])+" computes the row key of a caller-supplied address (in "+fn.Name()+") without first replacing a pay-to-pubkey address by its pubkey-hash form as ScopedKeyManager.Address does: for an output paying a wallet key directly, Address finds the address but this lookup does not — the transaction is not recorded (AddrAccount fails) or the address stays unmarked (MarkUsed)")
+		}
+	}
+	c.Floor(rule, "row keys computed from caller-supplied addresses", n, 3)
+}
+
+// checkScriptSecrecyClassIsCallers: whether an imported script is sealed under the script crypto key (secret: locked
+// and watching-only managers refuse it, the conversion to watching-only deletes it, Script() is lock-gated) or under the
+// public key is the CALLER's decision. The exported import functions hand that decision to the worker unchanged: the
+// secrecy argument at each call of the worker is the exported function's own parameter or a constant — never a value
+// that the function may have downgraded on some path (a locked manager is not a watching-only one).
+func checkScriptSecrecyClassIsCallers(c *Ctx, rule string) {
+	p := c.P
+	n := 0
+	for _, fn := range p.FuncsIn("waddrmgr") {
+		for _, ci := range callsOf(fn) {
+			call, ok := ci.(*ssa.Call)
+			if !ok {
+				continue
+			}
+			g := call.Call.StaticCallee()
+			if g == nil || fnPkgPath(g) != fnPkgPath(fn) || g.Object() == nil || g.Object().Exported() {
+				continue
+			}
+			if top := outermost(fn); top.Object() == nil || !top.Object().Exported() {
+				continue
+			}
+			arg := p.argNamed(call, "isSecretScript", -1)
+			if arg == nil {
+				continue
+			}
+			n++
+			a := stripConv(arg)
+			_, isK := a.(*ssa.Const)
+			prm, isP := a.(*ssa.Parameter)
+			ok = isK || (isP && prm.Parent() == outermost(fn))
+			c.Check(rule, "script-secrecy-class-is-callers:"+fnName(outermost(fn)), call.Pos(), ok,
+				fnName(outermost(fn))+" does not hand the caller's secrecy class of the script to "+g.Name()+" unchanged: a script the caller declared secret can be sealed under the public crypto key and flagged non-secret — it survives the conversion to watching-only and is returned without the lock check")
+		}
+	}
+	c.Floor(rule, "calls handing a script's secrecy class to the import worker", n, 2)
+}
+
+// checkCompressionFlagIsTheWifs: an imported private key is stored under the hash of the serialisation its WIF asks for
+// (wif.SerializePubKey()). Every managed-address object built for it in the same operation must be told the same choice:
+// wherever a function that is handed a *btcutil.WIF passes a `compressed` argument on, that argument is read from the
+// WIF's CompressPubKey. With a constant the object (returned and cached) is the address of the OTHER serialisation: the
+// running manager answers for an address a restarted one has never heard of.
+func checkCompressionFlagIsTheWifs(c *Ctx, rule string) {
+	p := c.P
+	n := 0
+	for _, fn := range p.FuncsIn("waddrmgr") {
+		top := outermost(fn)
+		hasWif := false
+		for _, prm := range top.Params {
+			if strings.HasSuffix(prm.Type().String(), "btcutil.WIF") {
+				hasWif = true
+			}
+		}
+		if !hasWif {
+			continue
+		}
+		for _, ci := range callsOf(fn) {
+			call, ok := ci.(*ssa.Call)
+			if !ok {
+				continue
+			}
+			g := call.Call.StaticCallee()
+			if g == nil || len(g.Params) != len(call.Call.Args) {
+				continue
+			}
+			for i, prm := range g.Params {
+				if prm.Name() != "compressed" || !isBoolType(prm.Type()) {
+					continue
+				}
+				n++
+				fromWif := false
+				for _, o := range (&Slicer{P: p, ThroughDeref: true}).Origins(call.Call.Args[i]) {
+					if _, f, _, ok := fieldOf(o); ok && f == "CompressPubKey" {
+						fromWif = true
+					}
+				}
+				c.Check(rule, "compression-flag-is-the-wifs:"+fnName(top)+">"+g.Name(), call.Pos(), fromWif,
+					fnName(top)+" builds the managed address of an imported key with a compression choice that is not the WIF's own (CompressPubKey): the row is stored under the serialisation the WIF asks for, the object handed out and cached is the address of the other one")
+			}
+		}
+	}
+	c.Floor(rule, "compression choices made while importing a WIF", n, 2)
+}
+
+// checkIssuingTransactionKeepsAccountCache: an address-issuing call advances the account's in-memory next index in a
+// commit callback, on the account object that was cached when the addresses were derived. Dropping that object from the
+// cache before the transaction has committed orphans it: the callback updates an object nobody reads, the reloaded one
+// already shows the uncommitted count, and a failed commit leaves memory one ahead of the database (a gap) — or a reader
+// repopulates the cache from a pre-commit snapshot and the next call re-issues the address. Rule: no function that
+// issues addresses inside a database transaction invalidates the account cache.
+func checkIssuingTransactionKeepsAccountCache(c *Ctx, rule string) {
+	p := c.P
+	issues := func(f *ssa.Function) bool {
+		for _, g := range Closures(f) {
+			for _, ci := range callsOf(g) {
+				switch calleeShort(ci.Common()) {
+				case "NextExternalAddresses", "NextInternalAddresses", "NewChangeAddress", "newAddress", "newChangeAddress":
+					return true
+				}
+			}
+		}
+		return false
+	}
+	n := 0
+	for _, fn := range p.FuncsIn("wallet") {
+		if fn.Parent() != nil || !issues(fn) {
+			continue
+		}
+		n++
+		var bad ssa.Instruction
+		for _, g := range Closures(fn) {
+			for _, ci := range callsOf(g) {
+				if calleeShort(ci.Common()) == "InvalidateAccountCache" {
+					// the dry-run import drops the account it created, after its transaction was rolled back: allowed
+					// only where the function's transaction is rolled back by construction
+					if !isDryRunOnly(p, g) {
+						bad = ci
+					}
+				}
+			}
+		}
+		pos := fn.Pos()
+		if bad != nil {
+			pos = bad.Pos()
+		}
+		c.Check(rule, "issuing-transaction-keeps-account-cache:"+fnName(fn), pos, bad == nil,
+			fnName(fn)+" invalidates the account cache in the transaction that issues an address: the commit callback then advances an orphaned account object, memory and database disagree after a failed commit (an index is skipped) or a concurrent reader re-caches the pre-commit count (an address is issued twice)")
+	}
+	c.Floor(rule, "address-issuing functions of the wallet", n, 4)
+}
+
+// isDryRunOnly: the transaction closure g can only end in a rollback — it has no return that reports success.
+func isDryRunOnly(p *Program, g *ssa.Function) bool {
+	if g.Parent() == nil || g.Signature.Results().Len() != 1 {
+		return false
+	}
+	q := &PathQuery{Fn: g, Target: p.nonErrorReturn()}
+	return len(q.From(nil)) == 0
+}
